@@ -591,6 +591,17 @@ func encSubLists(l []gSub) []byte {
 	return out
 }
 
+// staleLen, when non-nil, supplies the Len already stored in a sublist / instruction before it is marshalled (a structure that
+// was decoded or encoded earlier and then edited): the encoders derive these lengths from the contents, whatever was stored
+var staleLen func() int
+
+func lenText() int {
+	if staleLen != nil {
+		return staleLen()
+	}
+	return 0
+}
+
 func subListsText(l []gSub, zeroPartLen bool) string {
 	var ss []string
 	for _, s := range l {
@@ -604,9 +615,9 @@ func subListsText(l []gSub, zeroPartLen bool) string {
 				}
 				ps = append(ps, fmt.Sprintf("%d.%d.%s", pl, p.typ, hexs(p.content)))
 			}
-			is = append(is, fmt.Sprintf("0/%d/%s", i.upsc, joinL(ps, ",")))
+			is = append(is, fmt.Sprintf("%d/%d/%s", lenText(), i.upsc, joinL(ps, ",")))
 		}
-		ss = append(ss, fmt.Sprintf("0:%s:0:0:%s", hexs(s.plmn)[0:6], joinL(is, "+")))
+		ss = append(ss, fmt.Sprintf("%d:%s:0:0:%s", lenText(), hexs(s.plmn)[0:6], joinL(is, "+")))
 	}
 	return joinL(ss, "|")
 }
@@ -676,6 +687,11 @@ func genUePolicy(g *Gen, w *bufio.Writer) {
 		}
 		b := encSubLists(l)
 		fmt.Fprintf(w, "upc mal %s\n", subListsText(l, i%2 == 0))
+		if i%3 == 1 {
+			staleLen = func() int { return []int{1, 2, 4, 13, 0xffff, 1 + g.Intn(300)}[g.Intn(6)] }
+			fmt.Fprintf(w, "upc mal %s\n", subListsText(l, i%2 == 0))
+			staleLen = nil
+		}
 		fmt.Fprintf(w, "upc unl %s\n", hexs(b))
 		cmd := append([]byte{byte(g.Intn(256)), 1, 0, byte(len(b) >> 8), byte(len(b))}, b...)
 		fmt.Fprintf(w, "upc dec %s\n", hexs(cmd))
@@ -710,7 +726,11 @@ func genUePolicy(g *Gen, w *bufio.Writer) {
 				rs = append(rs, fmt.Sprintf("%d.%d.%d", u, o, []int{0x6f, 0, 0xff}[g.Intn(3)]))
 				body = append(body, byte(u>>8), byte(u), byte(o>>8), byte(o), byte(g.Intn(256)))
 			}
-			parts = append(parts, fmt.Sprintf("0:%s:0:0:%s", hexs(p), joinL(rs, ",")))
+			sl := 0
+			if i%3 == 1 {
+				sl = []int{1, 3, 8, 0xffff, 1 + g.Intn(300)}[g.Intn(5)]
+			}
+			parts = append(parts, fmt.Sprintf("%d:%s:0:0:%s", sl, hexs(p), joinL(rs, ",")))
 			ln := 3 + len(body)
 			wire = append(wire, byte(ln>>8), byte(ln))
 			wire = append(wire, p...)
